@@ -78,7 +78,9 @@ def actual_events(ctx, cfg, fn, semantic_calls, keep_getters=()):
     Vf = validation_facts(fn, G)
     out = []
     for ev in body_events(fn, G, D, E.pts[fn.path]):
-        g = norm_guards(guard_names((f for f in G.before_term(ev[3]) if f[0] in ("bool", "cmp")), Vf))
+        # a call is the block's terminator; a store is a statement: its own write must not kill the facts it is guarded by
+        fs = G.before_term(ev[3]) if ev[0] == "call" else G.at_entry(ev[3])
+        g = norm_guards(guard_names((f for f in fs if f[0] in ("bool", "cmp")), Vf))
         if ev[0] == "call":
             nc = norm_callee(ev[1])
             if nc not in semantic_calls:
